@@ -898,10 +898,12 @@ def build_request(sess: _Session, req: Dict[str, Any]) -> Dict[str, Any]:
 
         fields += W.attr_pieces(v, attrs)
 
-        if inject is None:
-            if v >= 5 and req.get('badflags'):
-                expect = status_for(v, W.FX_INVALID_PARAMETER)
-            elif not writable:
+        if v >= 5 and req.get('badflags'):
+            # refused before the path is looked at
+            expect = status_for(v, W.FX_INVALID_PARAMETER)
+            info.pop('inject', None)
+        elif inject is None:
+            if not writable:
                 expect = path_error(kind, True)
                 if expect is None:
                     if kind in ('file', 'link'):
@@ -1219,11 +1221,12 @@ def run_server(case) -> CaseResult:
             for info in sent:
                 hs = [info['handle']] if 'handle' in info else \
                     info.get('handles', [])
-                if info.get('var') == 'valid' and \
+                if info.get('var') in ('valid', 'trail') and \
                         any(hh[0] in closing for hh in hs) and \
                         info['op'] != 'CLOSE':
                     info['expect'] = None
-                if info['op'] == 'CLOSE' and info.get('var') == 'valid' and \
+                if info['op'] == 'CLOSE' and \
+                        info.get('var') in ('valid', 'trail') and \
                         sum(1 for s in sent if s.get('closes') ==
                             info.get('closes')) > 1:
                     info['expect'] = None
@@ -1609,9 +1612,575 @@ def server_strategy(tier: str):
     return build()
 
 
+
+# ===========================================================================
+# client under test
+# ===========================================================================
+
+# caller op -> (request type, extension, legal non-STATUS reply type or None)
+CALLS: Dict[str, Tuple[int, Optional[bytes], Optional[int]]] = {
+    'stat': (17, None, ATTRS), 'lstat': (7, None, ATTRS),
+    'readlink': (19, None, NAME), 'realpath': (16, None, NAME),
+    'remove': (13, None, None), 'rmdir': (15, None, None),
+    'mkdir': (14, None, None), 'open': (3, None, HANDLE),
+    'statvfs': (200, b'statvfs@openssh.com', EXTREPLY),
+    'fread': (5, None, DATA), 'fwrite': (6, None, None),
+    'fstat': (8, None, ATTRS), 'fstatvfs': (200, b'fstatvfs@openssh.com',
+                                           EXTREPLY),
+    'fsync': (200, b'fsync@openssh.com', None),
+}
+CALL_NAMES = sorted(CALLS)
+FILE_CALLS = {'fread', 'fwrite', 'fstat', 'fstatvfs', 'fsync'}
+WRONG_TYPES = [HANDLE, DATA, NAME, ATTRS, EXTREPLY, 2, 1, 3, 16, 100, 106,
+               150, 200, 0, 255]
+CLIENT_EXTS = [(b'posix-rename@openssh.com', b'1'),
+               (b'statvfs@openssh.com', b'2'), (b'fstatvfs@openssh.com', b'2'),
+               (b'hardlink@openssh.com', b'1'), (b'fsync@openssh.com', b'1'),
+               (b'lsetstat@openssh.com', b'1')]
+
+
+def _tag_attrs(v: int, tag: int) -> bytes:
+    a = {'size': tag, 'permissions': 0o100644}
+    if v >= 4:
+        a['type'] = W.T_REGULAR
+    return W.enc_attrs(v, a)
+
+
+def reply_body(v: int, rtype: int, tag: int) -> bytes:
+    """Well-formed body of a reply of type rtype in version v, carrying tag"""
+
+    if rtype == STATUS:
+        return W.status_body(W.FX_OK, '', '')
+    if rtype == HANDLE:
+        return sstr(b'h%d' % tag)
+    if rtype == DATA:
+        return sstr(b'D%d' % tag)
+    if rtype == NAME:
+        return u32(1) + W.enc_name(v, b'/r%d' % tag, b'long /r%d' % tag,
+                                   {'size': tag})
+    if rtype == ATTRS:
+        return _tag_attrs(v, tag)
+    if rtype == EXTREPLY:
+        return W.enc_vfs([tag] + [7] * 10)
+    if rtype == 2:
+        return b''           # VERSION has no id; what follows is its "version"
+    return sstr(b'x%d' % tag)
+
+
+def run_client(case) -> CaseResult:
+    cv = case['cv']
+    v = min(case['sv'], cv)
+    labels = {'v%d' % v}
+    pair, sessions = W.scripted_server_pair(FAST_CIPHER)
+    h = pair.h
+    import itertools
+    chunks = case.get('chunks') or []
+    chunker = itertools.cycle(chunks) if chunks else None
+    frag = case.get('frag') or []
+    fragit = itertools.cycle(frag) if frag else None
+
+    try:
+        pair.handshake()
+
+        async def start():
+            return await pair.c.start_sftp_client(sftp_version=cv,
+                                                  path_encoding=None)
+
+        async def wrap(coro):
+            try:
+                return ('ok', await coro)
+            except asyncssh.SFTPError as exc:
+                return ('sftp', exc)
+
+        start_task = h.spawn(wrap(start()))
+        h.pump(chunker)
+
+        if len(sessions) != 1 or sessions[0].subsystem != 'sftp':
+            raise Violation('client-start', 'no sftp subsystem request',
+                            'client-start')
+
+        ss = sessions[0]
+
+        def srv_send(data: bytes) -> None:
+            pos = 0
+            while pos < len(data):
+                n = next(fragit) if fragit else len(data)
+                h.call(ss.chan.write, data[pos:pos + n])
+                pos += n
+                if fragit:
+                    h.pump(chunker)
+            h.pump(chunker)
+
+        def srv_recv() -> List[Tuple[int, bytes]]:
+            try:
+                return ss.packets()
+            except WireError as exc:
+                raise Violation('request-framing', str(exc),
+                                'request-framing') from None
+
+        pkts = srv_recv()
+
+        if len(pkts) != 1 or pkts[0][0] != W.FXP_INIT or \
+                pkts[0][1][:4] != u32(cv):
+            raise Violation('client-start', 'expected INIT(version=%d), got '
+                            '%r' % (cv, pkts), 'client-init')
+
+        exts = list(CLIENT_EXTS)
+
+        if case.get('limits'):
+            exts.append((b'limits@openssh.com', b'1'))
+            labels.add('limits')
+
+        srv_send(W.frame(W.FXP_VERSION, u32(v) + b''.join(
+            sstr(k) + sstr(x) for k, x in exts)))
+
+        outstanding: Dict[int, Any] = {}       # id -> caller index / 'setup'
+        answered: List[int] = []
+
+        def expect_request(ptype: int, ext: Optional[bytes], who: Any) -> int:
+            """Exactly one new request, of the right type, with an id that is
+            not in use"""
+
+            pkts = srv_recv()
+
+            if len(pkts) != 1:
+                raise Violation('request', 'one API call produced %d requests'
+                                ' (%r)' % (len(pkts), [t for t, _ in pkts]),
+                                'request-count')
+
+            t, payload = pkts[0]
+            cur = Cur(payload)
+
+            try:
+                rid = cur.u32('id')
+                name = cur.str('ext') if t == FXP_EXTENDED else None
+            except WireError as exc:
+                raise Violation('request', 'request does not parse: %s' % exc,
+                                'request-parse') from None
+
+            if t != ptype or name != ext:
+                raise Violation('request', 'expected request type %d/%r, got '
+                                '%d/%r' % (ptype, ext, t, name),
+                                'request-type')
+
+            if rid in outstanding:
+                raise Violation('id-allocation', 'request id %d allocated '
+                                'while a request with that id is outstanding'
+                                % rid, 'id-reuse')
+
+            outstanding[rid] = who
+            return rid
+
+        if case.get('limits'):
+            h.pump(chunker)
+            rid = expect_request(FXP_EXTENDED, b'limits@openssh.com', 'setup')
+            srv_send(W.frame(EXTREPLY, u32(rid) + u64(1 << 20) + u64(65536) +
+                             u64(65536) + u64(100)))
+            del outstanding[rid]
+
+        if not start_task.done():
+            raise Violation('hang', 'start_sftp_client() still pending after '
+                            'VERSION%s' % (' and limits reply'
+                                           if case.get('limits') else ''),
+                            'hang:start')
+
+        kind, sftp = start_task.result()
+
+        if kind != 'ok':
+            raise Violation('client-start', 'start_sftp_client() failed on a '
+                            'well-formed VERSION%s: %r' %
+                            (' + limits reply' if case.get('limits') else '',
+                             sftp), 'client-start-failed')
+
+        if sftp.version != v:
+            raise Violation('client-start', 'negotiated version %d, client '
+                            'says %d' % (v, sftp.version), 'client-version')
+
+        # -- files opened up front (sequentially, answered normally)
+        files = []
+
+        for i in range(case.get('nfiles', 0)):
+            async def opener(i=i):
+                return await sftp.open(b'/file%d' % i, 'r+b',
+                                       block_size=None)
+
+            t = h.spawn(wrap(opener()))
+            h.pump(chunker)
+            rid = expect_request(3, None, 'setup')
+            srv_send(W.frame(HANDLE, u32(rid) + sstr(b'H%d' % i)))
+            del outstanding[rid]
+
+            if not t.done() or t.result()[0] != 'ok' or \
+                    t.result()[1].handle != b'H%d' % i:
+                raise Violation('setup-open', 'open() -> %r' %
+                                (t.result() if t.done() else 'pending',),
+                                'setup-open')
+
+            files.append(t.result()[1])
+
+        # -- k concurrent callers
+        calls = []
+
+        for j, c in enumerate(case['calls']):
+            op = c['op']
+
+            if op in FILE_CALLS and not files:
+                op = 'stat'
+
+            f = files[c.get('f', 0) % len(files)] if op in FILE_CALLS \
+                else None
+            path = b'/p%d' % j
+
+            if op == 'stat':
+                coro = sftp.stat(path)
+            elif op == 'lstat':
+                coro = sftp.lstat(path)
+            elif op == 'readlink':
+                coro = sftp.readlink(path)
+            elif op == 'realpath':
+                coro = sftp.realpath(path)
+            elif op == 'remove':
+                coro = sftp.remove(path)
+            elif op == 'rmdir':
+                coro = sftp.rmdir(path)
+            elif op == 'mkdir':
+                coro = sftp.mkdir(path)
+            elif op == 'statvfs':
+                coro = sftp.statvfs(path)
+            elif op == 'open':
+                async def _open(path=path):
+                    return await sftp.open(path, 'rb')
+                coro = _open()
+            elif op == 'fread':
+                coro = f.read(100, 1000 * j)
+            elif op == 'fwrite':
+                coro = f.write(b'W%d' % j, 1000 * j)
+            elif op == 'fstat':
+                coro = f.stat()
+            elif op == 'fstatvfs':
+                coro = f.statvfs()
+            elif op == 'fsync':
+                coro = f.fsync()
+            else:
+                raise HarnessError(op)
+
+            task = h.spawn(wrap(coro))
+            h.pump(chunker)
+            ptype, ext, rtype = CALLS[op]
+            rid = expect_request(ptype, ext, j)
+            calls.append({'op': op, 'task': task, 'id': rid, 'rtype': rtype,
+                          'state': 'pending'})
+            labels.add('call:' + op)
+
+        k = len(calls)
+
+        if k >= 2:
+            labels.add('k>=2')
+        if k >= 5:
+            labels.add('k>=5')
+
+        dead = False
+        order = []
+        used_kinds = set()
+
+        def check_value(j: int, res: Any) -> Optional[str]:
+            op = calls[j]['op']
+            tag = 1000 + j
+
+            if op in ('stat', 'lstat', 'fstat'):
+                ok = isinstance(res, SFTPAttrs) and res.size == tag
+            elif op in ('readlink', 'realpath'):
+                ok = res == b'/r%d' % tag
+            elif op in ('remove', 'rmdir', 'mkdir', 'fsync'):
+                ok = res is None
+            elif op == 'fwrite':
+                ok = res == len(b'W%d' % j)
+            elif op == 'open':
+                ok = getattr(res, 'handle', None) == b'h%d' % tag
+            elif op in ('statvfs', 'fstatvfs'):
+                ok = isinstance(res, SFTPVFSAttrs) and res.bsize == tag
+            elif op == 'fread':
+                ok = res == b'D%d' % tag
+            else:
+                ok = False
+
+            return None if ok else 'caller %d (%s) got %r, wanted the ' \
+                'payload tagged %d' % (j, op, res, tag)
+
+        def verify(where: str) -> None:
+            """Every caller is in the state the replies sent so far imply"""
+
+            nonlocal dead
+
+            if h.loop_errors:
+                raise Violation('loop-error', repr(h.loop_errors[0])[:800],
+                                'client-loop-error')
+
+            # a wrong-typed reply may fail the whole session instead of the
+            # one caller: then every caller still pending must have failed
+            if not dead and any(
+                    c['state'] == 'pending' and c['task'].done() and
+                    c['task'].result()[0] == 'sftp' for c in calls) and \
+                    used_kinds & {'wrong', 'okstatus'}:
+                dead = True
+                for c in calls:
+                    if c['state'] == 'pending':
+                        c['state'] = 'session-error'
+
+            for j, c in enumerate(calls):
+                st_ = c['state']
+                task = c['task']
+
+                if st_ == 'pending':
+                    if task.done():
+                        raise Violation(
+                            'cross-delivery', '%s: caller %d (%s, id %d) '
+                            'completed with %r although no reply with its id '
+                            'was sent' % (where, j, c['op'], c['id'],
+                                          task.result()),
+                            'spurious-completion')
+                    continue
+
+                if not task.done():
+                    raise Violation('hang', '%s: caller %d (%s, id %d) still '
+                                    'pending; expected %r' %
+                                    (where, j, c['op'], c['id'], st_),
+                                    'hang:' + (st_ if isinstance(st_, str)
+                                               else st_[0]))
+
+                kind, res = task.result()
+
+                if st_ == 'value':
+                    msg = check_value(j, res) if kind == 'ok' else \
+                        'caller %d (%s) raised %r for a well-typed reply' % \
+                        (j, c['op'], res)
+                    if msg:
+                        raise Violation('cross-delivery', where + ': ' + msg,
+                                        'wrong-result:' + c['op'])
+                elif st_ == 'empty':
+                    if kind != 'ok' or res != b'':
+                        raise Violation('result', '%s: read() answered by '
+                                        'FX_EOF gave %r' % (where, res),
+                                        'eof-result')
+                elif isinstance(st_, tuple):            # ('err', code)
+                    if kind != 'sftp' or res.code != st_[1] or \
+                            'E%d' % j not in res.reason:
+                        raise Violation(
+                            'cross-delivery', '%s: caller %d (%s) was sent '
+                            'STATUS(code=%d, "E%d"), got %r' %
+                            (where, j, c['op'], st_[1], j, res),
+                            'wrong-error:' + c['op'])
+                elif st_ == 'badmsg':
+                    if kind != 'sftp' or res.code != W.FX_BAD_MESSAGE:
+                        raise Violation(
+                            'wrong-type-accepted', '%s: caller %d (%s) was '
+                            'sent a reply of an illegal type and got %r '
+                            'instead of SFTPBadMessage' %
+                            (where, j, c['op'], res),
+                            'wrong-type-accepted:' + c['op'])
+                elif st_ == 'session-error':
+                    if kind != 'sftp':
+                        raise Violation(
+                            'cross-delivery', '%s: the session failed, yet '
+                            'caller %d (%s) got the value %r' %
+                            (where, j, c['op'], res),
+                            'value-after-session-failure')
+
+        for burst in case['bursts']:
+            if dead or not calls:
+                break
+
+            wire = []
+
+            for act in burst:
+                kind = act['kind']
+                j = act['who'] % k
+                c = calls[j]
+                tag = 1000 + j
+
+                if dead:
+                    # the client has stopped reading; nothing more is
+                    # delivered, so stop composing
+                    break
+
+                if kind in ('ok', 'err', 'wrong', 'okstatus', 'eof') and \
+                        c['id'] not in outstanding:
+                    kind = 'dup'
+
+                if kind == 'ok' and c['op'] == 'fread' and \
+                        act.get('code', 0) % 3 == 0:
+                    kind = 'eof'
+
+                if kind == 'eof' and c['op'] != 'fread':
+                    kind = 'ok'
+
+                if kind == 'okstatus' and c['rtype'] is None:
+                    kind = 'ok'
+
+                used_kinds.add(kind)
+                labels.add('act:' + kind)
+
+                if kind == 'ok':
+                    rtype = c['rtype'] or STATUS
+                    wire.append(W.frame(rtype, u32(c['id']) +
+                                        reply_body(v, rtype, tag)))
+                    c['state'] = 'value'
+                elif kind == 'eof':
+                    wire.append(W.frame(STATUS, u32(c['id']) +
+                                        W.status_body(W.FX_EOF, 'E%d' % j,
+                                                      'en')))
+                    c['state'] = 'empty'
+                elif kind == 'err':
+                    code = 2 + act.get('code', 0) % 30
+                    if c['op'] == 'fread' and code == W.FX_EOF:
+                        code = W.FX_FAILURE
+                    wire.append(W.frame(STATUS, u32(c['id']) +
+                                        W.status_body(code, 'E%d' % j, 'en')))
+                    c['state'] = ('err', code)
+                elif kind == 'okstatus':
+                    wire.append(W.frame(STATUS, u32(c['id']) +
+                                        W.status_body(W.FX_OK, '', '')))
+                    c['state'] = 'badmsg'
+                elif kind == 'wrong':
+                    legal = {STATUS, c['rtype']}
+                    idx = act.get('wtype', 0)
+                    while WRONG_TYPES[idx % len(WRONG_TYPES)] in legal:
+                        idx += 1
+                    wt = WRONG_TYPES[idx % len(WRONG_TYPES)]
+                    wire.append(W.frame(wt, u32(c['id']) +
+                                        reply_body(v, wt, tag)))
+                    c['state'] = 'badmsg'
+                    labels.add('wrong:' + W.TYPE_NAMES.get(wt, 'other'))
+                elif kind in ('unknown', 'dup'):
+                    if kind == 'dup':
+                        if not answered:
+                            used_kinds.discard('dup')
+                            labels.discard('act:dup')
+                            continue
+                        rid = answered[act.get('idoff', 0) % len(answered)]
+                    else:
+                        ids = sorted(set(outstanding) | set(answered))
+                        rid = [ids[-1] + 1 + act.get('idoff', 0) % 3,
+                               0xffffffff, ids[-1] + 1000,
+                               0x80000000][act.get('idoff', 0) % 4] \
+                            if ids else 7
+                        while rid in outstanding or rid in answered:
+                            rid = (rid + 1) & 0xffffffff
+
+                    rtype = [STATUS, ATTRS, DATA, HANDLE, NAME,
+                             EXTREPLY][act.get('wtype', 0) % 6]
+                    wire.append(W.frame(rtype, u32(rid) +
+                                        reply_body(v, rtype, tag)))
+                    dead = True
+
+                    for cc in calls:
+                        if cc['id'] in outstanding:
+                            cc['state'] = 'session-error'
+
+                    outstanding.clear()
+                    continue
+
+                order.append(j)
+                answered.append(c['id'])
+                del outstanding[c['id']]
+
+            if len(wire) >= 2:
+                labels.add('coalesced-replies')
+
+            srv_send(b''.join(wire))
+            verify('after burst %r' % ([a['kind'] for a in burst],))
+
+        answered_callers = [j for j in order]
+
+        if k >= 2 and answered_callers != sorted(answered_callers):
+            labels.add('reordered')
+
+        # -- end of session: nobody is left hanging
+        if dead:
+            labels.add('session-failed')
+        else:
+            labels.add('session-closed-by-server')
+            h.call(ss.chan.write_eof)
+            h.pump(chunker)
+            h.call(ss.chan.close)
+            h.pump(chunker)
+
+            for c in calls:
+                if c['state'] == 'pending':
+                    c['state'] = 'session-error'
+
+        verify('at the end of the session')
+
+        # a call made after the session ended fails, it does not hang
+        late = h.spawn(wrap(sftp.stat(b'/late')))
+        h.pump(chunker)
+
+        if not late.done():
+            raise Violation('hang', 'stat() on a finished SFTP session never '
+                            'returns', 'hang:late-call')
+
+        if late.result()[0] != 'sftp':
+            raise Violation('result', 'stat() on a finished SFTP session '
+                            'returned %r' % (late.result(),), 'late-call')
+
+        nontrivial = 'reordered' in labels or bool(
+            used_kinds & {'wrong', 'okstatus', 'unknown', 'dup'})
+        return CaseResult(sorted(labels), nontrivial)
+    finally:
+        pair.close()
+
+
+def client_strategy(tier: str):
+    max_k = 10 if tier == 'quick' else 16
+
+    @st.composite
+    def build(draw):
+        sv = draw(st.sampled_from([3, 4, 5, 6]))
+        cv = draw(st.integers(sv, 6))
+        k = draw(st.integers(1, max_k))
+        nfiles = draw(st.integers(0, 2))
+        calls = [{'op': draw(st.sampled_from(CALL_NAMES)),
+                  'f': draw(st.integers(0, 1))} for _ in range(k)]
+        action = st.fixed_dictionaries({
+            'kind': st.sampled_from(['ok', 'ok', 'ok', 'ok', 'ok', 'err',
+                                     'err', 'eof', 'wrong', 'wrong',
+                                     'okstatus', 'unknown', 'dup']),
+            'who': st.integers(0, k - 1), 'code': st.integers(0, 29),
+            'wtype': st.integers(0, 14), 'idoff': st.integers(0, 7)})
+        # mostly a permutation of the callers, plus noise
+        perm = draw(st.permutations(list(range(k))))
+        nact = draw(st.integers(0, k + 2))
+        acts = []
+
+        for i in range(nact):
+            a = draw(action)
+            if i < k and draw(st.integers(0, 3)):
+                a['who'] = perm[i]
+            acts.append(a)
+
+        bursts = []
+        pos = 0
+
+        while pos < len(acts):
+            n = draw(st.integers(1, 4))
+            bursts.append(acts[pos:pos + n])
+            pos += n
+
+        return {'cv': cv, 'sv': sv, 'nfiles': nfiles, 'calls': calls,
+                'bursts': bursts, 'limits': draw(st.booleans()),
+                'frag': draw(st.one_of(st.just([]), st.just([]), st.just([1]),
+                                       st.lists(st.integers(1, 30),
+                                                min_size=1, max_size=3))),
+                'chunks': draw(st.one_of(st.just([]), st.just([]),
+                                         st.lists(st.integers(1, 300),
+                                                  min_size=1, max_size=3)))}
+
+    return build()
+
+
 FAMILIES = [
     Family('server', run_server, strategy=server_strategy,
-           budget={'quick': 640, 'thorough': 16000},
+           budget={'quick': 1280, 'thorough': 20000},
            required={'all': ['v3', 'v4', 'v5', 'v6', 'var:valid', 'var:trunc',
                              'var:trail', 'var:unktype', 'var:unkext',
                              'trunc:boundary', 'trunc:byte', 'pipelined>=4',
@@ -1621,6 +2190,16 @@ FAMILIES = [
                      ['reply:' + t for t in ('STATUS', 'HANDLE', 'DATA',
                                              'NAME', 'ATTRS',
                                              'EXTENDED_REPLY')]},
+           case_timeout=60),
+    Family('client', run_client, strategy=client_strategy,
+           budget={'quick': 1280, 'thorough': 20000},
+           required={'all': ['v3', 'v4', 'v5', 'v6', 'k>=2', 'k>=5',
+                             'reordered', 'coalesced-replies', 'act:ok',
+                             'act:err', 'act:eof', 'act:wrong',
+                             'act:okstatus', 'act:unknown', 'act:dup',
+                             'session-failed', 'session-closed-by-server',
+                             'limits'] +
+                     ['call:' + c for c in CALL_NAMES]},
            case_timeout=60),
     Family('codec-enum', run_codec_enum, enumerate=enum_codec,
            required={'all': ['v3', 'v4', 'v5', 'v6', 'flags>=3', 'all-flags',
